@@ -249,7 +249,19 @@ def lifecycle : List String → Option String
 
 end LifeDrv
 
+/-- `lookup <hex name,hex name,…> <hex name>` → position (0-based) of the account the identity loaders
+resolve the name to among the stored accounts (primary-key order), `none` if there is none -/
+def lookupCh : List String → Option String
+  | [names, name] => do
+    let ns ← (names.splitOn ",").mapM parseStr
+    let n ← parseStr name
+    let accs : List (String × Nat) := (ns.map String.ofList).zipIdx
+    match DashLive.Auth.lookupAccount accs (String.ofList n) with
+    | some i => some (toString i)
+    | none => some "none"
+  | _ => none
+
 def channels : List (String × (List String → Option String)) :=
-  [("authz", authz), ("csrf_seq", csrfSeq), ("lifecycle", LifeDrv.lifecycle)]
+  [("authz", authz), ("csrf_seq", csrfSeq), ("lifecycle", LifeDrv.lifecycle), ("lookup", lookupCh)]
 
 end DashLive.Driver.Csrf
